@@ -271,6 +271,10 @@ class Normalizer:
             r = r[2] if r[1] == ('k', True) else r[3]       # a flag parameter bound to a constant at the call site
         elif r and r[0] == 'not' and len(r) == 2 and r[1] in (('k', True), ('k', False)):
             r = ('k', not r[1][1])
+        elif r and r[0] == 'lam' and len(r) == 4 and is_num(r[2]) and float(r[2][1]).is_integer() and 0 <= r[2][1] <= self.UNROLL_MAX \
+                and not _has(r[3], ('bv',)):
+            # N18 the other way round: `[item] * n` with a constant n that only became known by substitution is the list literal
+            r = self.mk_list(tuple(r[3] for _ in range(int(r[2][1]))))
         memo[k] = (t, r)
         return r
 
